@@ -312,6 +312,23 @@ func codecTx(o *h.Out, rc *h.Rng, ans func(string)) {
 	if !bytes.Equal(data, data2) {
 		o.Violate("c14-reencode-differs:tx", fmt.Sprintf("re-encoding differs: %x vs %x", data, data2))
 	}
+	// a decoded object owns its numbers: repricing a decoded ETX in place (as prime and the worker do with inbound
+	// conversions) must not reach any shared constant or the object it was decoded from
+	if p.kind == 1 {
+		tx4 := new(types.Transaction)
+		if err := tx4.ProtoDecode(fresh, p.loc); err == nil {
+			tx4.SetValue(big.NewInt(123456789))
+			if common.Big0.Sign() != 0 || common.Big1.Cmp(big.NewInt(1)) != 0 {
+				o.Violate("c14-decoded-value-aliases-shared-constant", fmt.Sprintf("SetValue on an ETX decoded from the wire (value %s) changed common.Big0 / Big1 to %s / %s", p.value, common.Big0, common.Big1))
+				common.Big0.SetInt64(0)
+				common.Big1.SetInt64(1)
+			}
+			if got := txFingerprint(tx2); got != want {
+				o.Violate("c14-decoded-objects-share-state", "SetValue on one decoded ETX changed another object decoded from the same bytes")
+			}
+			o.Count("decoded-etx-repriced")
+		}
+	}
 	// hash stability (fresh objects so that no memoised hash is compared with itself)
 	h1 := p.build().Hash(p.loc...)
 	if h2 := tx2.Hash(p.loc...); h1 != h2 {
